@@ -6,6 +6,8 @@ h = copy.deepcopy(_c02.HARNESSES[0])
 h['obligations'] = ['every block that reports BLOCK_CAN_BE_APPLIED (and is not failed) after the explored history is valid on its own ancestry per the independent specification, and setState to it succeeds from the current state',
                     'a candidate whose payloads are valid only thanks to the competing chain (SP parent / block of proof introduced by the other fork) never wins a comparison and is never raised to full validity',
                     'the first activated target can be re-activated at the end of the history']
-HARNESSES = [h]
+_rp = _ilu.spec_from_file_location('realspec', os.path.join(os.path.dirname(os.path.abspath(__file__)), '..', 'real', 'spec.py'))
+_real = _ilu.module_from_spec(_rp); _rp.loader.exec_module(_real)
+HARNESSES = [h] + copy.deepcopy(_real.HARNESSES)
 EXPLANATION = _c02.EXPLANATION
-ASSUMPTIONS = _c02.ASSUMPTIONS + ['mempool payload filtering and payload removal paths are outside']
+ASSUMPTIONS = _real.ASSUMPTIONS + _c02.ASSUMPTIONS + ['mempool payload filtering and payload removal paths are outside']
